@@ -25,7 +25,7 @@ def grid_cat(dmax, pmax):
     return [dict(d=d, p=p, dim=dim) for d in range(1, dmax + 1) for p in range(2, pmax + 1) for dim in range(d)]
 
 
-@scenario('C09', 'cat', 'torchtt._extras.cat', quick=grid_cat(3, 2) + [dict(d=2, p=3, dim=1)], thorough=grid_cat(4, 3), replay='cat')
+@scenario('C09', 'cat', 'torchtt._extras.cat', quick=grid_cat(3, 2) + [dict(d=2, p=3, dim=1)], thorough=grid_cat(4, 3), dtypes=('float64', 'float32'), replay='cat')
 def cat(ob, d, p, dim):
     ex = ob.ex
     N = H.sym_sizes(ex, 'N', d)
@@ -42,7 +42,7 @@ def cat(ob, d, p, dim):
     want[dim] = sum(t.N_[dim] for t in ts[1:]) + ts[0].N_[dim]
     all_eq(ob, 'N', f['N'], want)
     all_eq(ob, 'R', f['R'], [1] + [sum(t.R_[k] for t in ts[1:]) + ts[0].R_[k] for k in range(1, d)] + [1], 'rank')
-    prove_dtype(ob, r, 'float64')
+    prove_dtype(ob, r, ob.dt())
     if len(f['N']) == d:
         idx = mode_index(ob, r)
         off = 0
@@ -64,7 +64,7 @@ def grid_pad(dmax, ttm):
     return out
 
 
-@scenario('C09', 'pad.tensor', 'torchtt._extras.pad', quick=grid_pad(3, False), thorough=grid_pad(4, False), replay='pad')
+@scenario('C09', 'pad.tensor', 'torchtt._extras.pad', quick=grid_pad(3, False), thorough=grid_pad(4, False), dtypes=('float64', 'float32'), replay='pad')
 def pad_tensor(ob, d, k, ttm):
     """constant padding of the last k modes with a symbolic fill value"""
     ex = ob.ex
@@ -99,7 +99,7 @@ def pad_tensor(ob, d, k, ttm):
     ob.frame()
 
 
-@scenario('C09', 'pad.operator', 'torchtt._extras.pad', quick=grid_pad(2, True), thorough=grid_pad(3, True), replay='pad')
+@scenario('C09', 'pad.operator', 'torchtt._extras.pad', quick=grid_pad(2, True), thorough=grid_pad(3, True), dtypes=('float64', 'float32'), replay='pad')
 def pad_operator(ob, d, k, ttm):
     """block-diagonal padding of an operator: original block kept, leading / trailing corner = value * identity, rest zero"""
     ex = ob.ex
@@ -160,7 +160,7 @@ def pad_operator(ob, d, k, ttm):
 
 
 @scenario('C09', 'diag', 'torchtt._extras.diag', quick=[dict(d=d, ttm=t) for d in (1, 2, 3) for t in (False, True)],
-          thorough=[dict(d=d, ttm=t) for d in (1, 2, 3, 4) for t in (False, True)], replay='unary')
+          thorough=[dict(d=d, ttm=t) for d in (1, 2, 3, 4) for t in (False, True)], dtypes=('float64', 'float32'), replay='unary')
 def diag(ob, d, ttm):
     ex = ob.ex
     if ttm:
@@ -203,12 +203,12 @@ def grid_mprod(dmax):
     return out
 
 
-@scenario('C09', 'mprod', 'torchtt._tt_base.TT.mprod', quick=grid_mprod(3), thorough=grid_mprod(4), replay='mprod')
+@scenario('C09', 'mprod', 'torchtt._tt_base.TT.mprod', quick=grid_mprod(3), thorough=grid_mprod(4), dtypes=('float64', 'float32'), replay='mprod')
 def mprod(ob, d, modes, form):
     ex = ob.ex
     x = ob.tt('x', d)
     L = H.sym_sizes(ex, 'L', len(modes))
-    Fs = [T.atom_tensor('F%d' % j, [L[j], x.N_[m]]) for j, m in enumerate(modes)]
+    Fs = [T.atom_tensor('F%d' % j, [L[j], x.N_[m]], ob.dt()) for j, m in enumerate(modes)]
     for j, F in enumerate(Fs):
         ex.register_arg(F, 'F%d' % j)
     ob.describe('L', L)
